@@ -16,7 +16,7 @@ import signal
 import time
 from typing import Any, Dict, List, Optional
 
-from bounded.c01_cases import Watchdog, _alarm_handler, _exc_record, struct_to_json
+from bounded.c01_cases import Watchdog, _alarm_handler, _exc_record, is_watchdog, struct_to_json
 from bounded.grammars import GRAMMARS as _BASE_GRAMMARS
 
 #: the reference grammars plus `wide1`: the language of `wide` with a single-alternative start symbol
@@ -55,6 +55,8 @@ def _observe(fn, budget_s: int) -> Dict[str, Any]:
     except Watchdog:
         return {"watchdog": True}
     except BaseException as e:  # noqa: BLE001 - the exception IS the observation
+        if is_watchdog(e):
+            return {"watchdog": True}
         rec = _exc_record(e)
         rec["module"] = type(e).__module__
         return {"exc": rec}
